@@ -92,6 +92,14 @@ def gen_pats(rng, exact, zero_ok, markers, nomatch=False):
             pats[j] = {'t': 'ex', 'p': pats[i]['p'] + rng.choice(['', 'a', 'b'])}
         else:
             pats[j] = {'t': 're', 'p': pats[i]['p']}
+    if not nomatch and pats and rng.random() < 0.2:
+        # a short pattern that never occurs, listed first: whatever is derived from "the first listed pattern"
+        # instead of from all of them (look-back length, window) is then too small for the later ones
+        p0 = rng.choice(['x', 'xb', 'ax'])
+        pats.insert(0, {'t': 'ex', 'p': p0} if exact else {'t': 're', 'p': p0})
+        if exact and rng.random() < 0.6:
+            k = rng.choice([3, 4, 5, 6])
+            pats.append({'t': 'ex', 'p': ''.join(rng.choice(ALPHA) for _ in range(k))})
     for m in markers:
         pats.insert(rng.randint(0, len(pats)), {'t': m})
     return pats
@@ -411,6 +419,10 @@ def evaluate(r, clauses=None):
                      % (name, res['index'], res['j'], len(chunks)), call, model=_res_brief(res)):
                     return out
                 return out
+            if seen_eof and is_eof and E == st() and call['before'] != st():
+                if V('C04.eof_clears', 'EOF reported again, but before is %r although the pending text had been cleared by the '
+                     'first EOF' % (call['before'],), call):
+                    return out
             if call['before'] != E:
                 if V('C01.conservation', 'after %s, before != all pending text' % name, call,
                      expected=E, got=call['before']):
@@ -450,6 +462,10 @@ def evaluate(r, clauses=None):
                     model.set_pending(model.pending + late_text)
             continue
         # ---- a text match
+        if seen_eof and E == st() and (call['before'] or call['after']):
+            if V('C04.after_eof_match', 'a pattern matched after EOF had been reported and the pending text cleared '
+                 '(before=%r after=%r)' % (call['before'], call['after']), call):
+                return out
         idx = val
         if not isinstance(idx, int) or idx < 0 or idx >= len(plist) or plist[idx] in (EOF, TIMEOUT):
             if V('C02.index', 'returned %r which is not a text pattern index' % (idx,), call):
